@@ -59,13 +59,18 @@ CLAUSES = {
         "proved (polymod_affine, polymod_step_injective, polymod_single_substitution, bech32_single_substitution; when the "
         "substituted character is the version character AND the substitution switches the checksum constant the proof "
         "covers at most 89 following characters, i.e. every address of <= 90 characters)",
-    "two substituted characters are rejected (length <= 90, checksum constant unchanged)":
-        "proved (polymod_double_substitution, bech32_double_substitution; 31x89 kernel table orbit_table)",
-    "two substitutions one of which switches the checksum constant (version character q <-> non-q)":
-        "correspondence-only (ext; sampled double substitutions include the version position)",
-    "TxOut.to_address inverts address() (F09a)": "partial(F09a): proved for the repaired prefix list on every network "
-        "(address_roundtrip_*), for today's list on every network but regtest (toAddress_roundtrip_partial); "
-        "F09a_witness for regtest",
+    "ANY two substituted characters of the data part are rejected (address length <= 90), including the case where "
+    "one of them is the version character and the checksum constant switches between 1 and 0x2bc830a3":
+        "proved (polymod_double_substitution, polymod_double_substitution_switch, bech32_double_substitution; kernel "
+        "tables orbit_table (31x89) and syndrome_table (2790 syndromes in a verified search tree))",
+    "what the decoders accept (soundness): data characters in the alphabet, version < 32, program 2..40 bytes; "
+    "upper-case data characters are refused (O09c: BIP173's all-upper-case form is not implemented)":
+        "proved (bech32_decode_sound, bech32_uppercase_rejected, base58_decode_chars)",
+    "TxOut.to_address inverts address() (F09a, fixed)": "proved for the repaired prefix list on every network "
+        "(address_roundtrip_*); for the pre-fix list on every network but regtest (toAddress_roundtrip_partial) and "
+        "F09a_witness for regtest; which list the source has is re-extracted on every run (Gen.toAddrSegwitPrefixes)",
+    "objects do not remember earlier queries (ScriptPubKey.address on several networks, PrivateKey.wif with different "
+    "arguments, every query issued twice)": "correspondence-only (spk_history, wif_history, doubled requests)",
 }
 TRUSTED = ["hash256 is a parameter of every theorem; the driver instantiates it with Buidl.Model.Hash.SHA256 "
            "(checked against hashlib by harness/hash_selftest.py)",
@@ -211,6 +216,13 @@ def model_line(line):
     return line
 
 
+def impl_twice(line):
+    """every query is issued twice; differing answers (hidden state) can match no model answer"""
+    a = impl_line(line)
+    b = impl_line(line)
+    return a if a == b else f"UNSTABLE {a} | {b}"
+
+
 # ------------------------------------------------------------------ direct predicates
 def p_b58_rt(c):
     """raw Base58: the bytes the string stands for are the payload (decoder: reference big-integer conversion)"""
@@ -339,7 +351,45 @@ def p_to_address_rt(c):
     return ok, fmt_spk(got.script_pubkey), fmt_spk(spk)
 
 
-PREDICATES = {"b58_roundtrip": p_b58_rt, "b58check_roundtrip": p_b58check_rt, "b58check_iff": p_b58check_iff,
+def p_spk_history(c):
+    """one ScriptPubKey object asked for its address on several networks in sequence, every query twice:
+    the answers equal those of fresh objects and the object is unchanged"""
+    import buidl.script as SC
+    h = unx(c["h"])
+    obj = mk_spk(c["kind"], h)
+    before = (list(obj.commands), obj.raw_serialize())
+    got, want = [], []
+    for net in c["nets"]:
+        for _ in range(2):
+            got.append(canon_str(lambda: obj.address(net)))
+        want += [canon_str(lambda: mk_spk(c["kind"], h).address(net))] * 2
+    back = [canon_str(lambda: fmt_spk(SC.address_to_script_pubkey(a))) for a in got if a != REJECT]
+    ok = got == want and (list(obj.commands), obj.raw_serialize()) == before and all(b == fmt_spk(obj) for b in back)
+    return ok, got, want
+
+
+def p_wif_history(c):
+    """one PrivateKey object asked for wif() with different arguments in sequence, every query twice"""
+    import buidl.pecc as PE
+    k = PE.PrivateKey(c["secret"], network=c["net"])
+    got, want = [], []
+    for comp in c["seq"]:
+        for _ in range(2):
+            got.append(k.wif(compressed=comp))
+        want += [PE.PrivateKey(c["secret"], network=c["net"]).wif(compressed=comp)] * 2
+    parsed = [(PE.PrivateKey.parse(w).secret, bool(PE.PrivateKey.parse(w).compressed)) for w in got]
+    ok = got == want and k.secret == c["secret"] and parsed == [(c["secret"], comp) for comp in c["seq"] for _ in range(2)]
+    return ok, got, want
+
+
+def canon_str(fn):
+    try:
+        return fn()
+    except Exception:
+        return REJECT
+
+
+PREDICATES = {"spk_history": p_spk_history, "wif_history": p_wif_history, "b58_roundtrip": p_b58_rt, "b58check_roundtrip": p_b58check_rt, "b58check_iff": p_b58check_iff,
               "bech32_roundtrip": p_b32_rt, "bech32_wrong_constant": p_b32_wrong_constant, "bech32_subst": p_subst,
               "wif_roundtrip": p_wif_rt, "a2s_roundtrip": p_a2s_rt, "to_address_roundtrip": p_to_address_rt}
 
@@ -471,7 +521,7 @@ def run(ctx):
                 lines.append(("b32_dec", f"b32_dec {xs(a)}"))
                 if v <= 1 and ln in (20, 32) and not (v == 1 and ln == 20):
                     addrs.append((a, HRP[net]))
-                    for _ in range(ctx.n(5, 30)):      # more addresses of the three standard shapes
+                    for _ in range(ctx.n(2, 30)):      # more addresses of the three standard shapes
                         p2 = rbytes(rng, ln)
                         a2 = safe(B32.encode_bech32_checksum, bytes([vb, ln]) + p2, net)
                         if isinstance(a2, str):
@@ -568,16 +618,24 @@ def run(ctx):
                 lines.append(("a2s_odd", f"a2s {xs(a)}"))
                 lines.append(("to_addr_odd", f"to_addr {xs(a)}"))
 
+    # ---- object-reuse histories (the codecs are stateless; the objects must not remember a network or a flag)
+    for kind in range(5):
+        for _ in range(ctx.n(4)):
+            nets = [rng.choice(NETS + ["nonet"]) for _ in range(rng.randrange(2, 7))]
+            preds.append(("spk_history", {"kind": kind, "h": xb(rbytes(rng, want_len[kind])), "nets": nets}))
+    for k in secrets[:3] + secrets[-3:]:
+        preds.append(("wif_history", {"secret": k, "net": rng.choice(NETS), "seq": [rng.random() < 0.5 for _ in range(4)]}))
+
     # ---- corrupted segwit addresses: exhaustive single substitutions, sampled double substitutions
     rng.shuffle(addrs)
-    picked = addrs[: ctx.n(80, 400)]
+    picked = addrs[: ctx.n(36, 400)]
     jobs = []
     n_single = n_double = 0
     for i, (a, hrp) in enumerate(picked):
         start = len(hrp) + 1
         singles = [[(pos, ch)] for pos in range(start, len(a)) for ch in CHARSET if ch != a[pos]]
         doubles = []
-        for _ in range(ctx.n(600)):
+        for _ in range(ctx.n(400, 4000)):
             p1, p2 = sorted(rng.sample(range(start, len(a)), 2))
             doubles.append([(p1, rng.choice([c for c in CHARSET if c != a[p1]])),
                             (p2, rng.choice([c for c in CHARSET if c != a[p2]]))])
@@ -604,8 +662,8 @@ def run(ctx):
                         lines.append(("a2s_corrupt", f"a2s {xs(s)}"))
     # ---- run both sides (one process pool for everything CPU-heavy on the implementation side)
     slow = [i for i, (k, _) in enumerate(lines) if k in ("wif", "wif_parse")]
-    wif_preds = [(k, c) for k, c in preds if k == "wif_roundtrip"]
-    other = [(k, c) for k, c in preds if k != "wif_roundtrip"]
+    wif_preds = [(k, c) for k, c in preds if k in ("wif_roundtrip", "wif_history")]
+    other = [(k, c) for k, c in preds if k not in ("wif_roundtrip", "wif_history")]
     heavy = ([("subst", j) for j in jobs] + [("line", lines[i][1]) for i in slow] + [("pred", kc) for kc in wif_preds])
     from concurrent.futures import ThreadPoolExecutor
     with ThreadPoolExecutor(max_workers=1) as ex:   # the native driver runs while the pool works
@@ -623,7 +681,7 @@ def run(ctx):
                           note="corrupted segwit address accepted")
     rec.sample("bech32_subst", {"addr": picked[0][0], "substitutions_tried": len(jobs[0][1])} if picked else {})
     for i, ((kind, line), model) in enumerate(zip(lines, answers)):
-        impl = slow_ans[i] if i in slow_ans else impl_line(line)
+        impl = slow_ans[i] if i in slow_ans else impl_twice(line)
         if rec.compare(kind, {"line": line}, impl, model, determined=True, key=line[:300],
                        nontrivial=not line.endswith(" x") and not line.endswith(" s")):
             rec.sample(kind, {"request": line, "answer": model})
@@ -644,6 +702,8 @@ def run(ctx):
     rec.note("TxOut.to_address segwit prefixes in the source: " +
              next((i["value"] for i in ctx.gen["items"] if i["name"] == "Address.toAddrSegwitPrefixes"), "?")
              if hasattr(ctx, "gen") else "")
+    rec.note("O09c (observation, outside the statement): decode_bech32 does no case folding, so the all-upper-case form "
+             "BIP173 allows is refused (theorem bech32_uppercase_rejected); exercised by b32_dec_corrupt / b32_dec_odd")
     rec.note("O09b (observation, outside the statement): decode_bech32 does not refuse witness versions 17..31; "
              "modelled faithfully and exercised by b32_dec_odd")
 
@@ -653,7 +713,7 @@ def _heavy(job):
     if what == "subst":
         return subst_batch(arg)
     if what == "line":
-        return impl_line(arg)
+        return impl_twice(arg)
     return eval_pred(arg[0], arg[1])
 
 
